@@ -52,11 +52,11 @@ def _hashed(ch):
     return "|1|" + ch          # stand-in text for the hashed form of a one-letter name (symbolic runs only)
 
 
-def _entries(ctx, nlines):
+def _entries(ctx, nlines, maxnames=2):
     """the symbolic file: list of (names, hashed_flags, ktype, kval)"""
     out = []
     for i in range(nlines):
-        nn = ctx.choice("line%d.nnames" % i, [1, 2])
+        nn = ctx.choice("line%d.nnames" % i, [1, 2]) if (maxnames == 2 or i == 0) else 1
         names, hashed = [], []
         for j in range(nn):
             names.append(ctx.text("line%d.name%d" % (i, j), 1, NAMES))
@@ -205,10 +205,10 @@ def _same(ctx, a, b, label):
             ctx.prove(va == vb, label)
 
 
-def load_case(nlines):
+def load_case(nlines, maxnames=2):
     def fn(ctx):
         import paramiko.hostkeys as HK
-        ents = _entries(ctx, nlines)
+        ents = _entries(ctx, nlines, maxnames)
         patches, fn_, cleanup, keyf, _r, fn2 = _setup(ctx, ents)
         try:
             with ctx.patches(patches):
@@ -268,4 +268,5 @@ def load_case(nlines):
 
 
 def cases(tier):
-    return [load_case(1), load_case(2)] + ([load_case(3)] if tier == "thorough" else [])
+    # three lines with two names on every line do not finish in 25 minutes; only the first line may list two names there
+    return [load_case(1), load_case(2)] + ([load_case(3, maxnames=1)] if tier == "thorough" else [])
